@@ -88,7 +88,7 @@ class C12(CheckBase):
                            '(mk_copy, update_from_other_container)'], 'stub': []}
     assumptions = ['single task; no fault kinds (history half of the technique only)',
                    'copy.copy of a container is shallow by definition of the language and therefore not an operation of the model']
-    expected_probes = ['inplace_append', 'construct', 'parse', 'mk_copy', 'update_from_other', 'deepcopy', 'write', 'serialise',
+    expected_probes = ['inplace_append', 'inplace_append_nested', 'construct', 'parse', 'mk_copy', 'update_from_other', 'deepcopy', 'write', 'serialise',
                        'absent_member_parsed']
 
     def budget(self, tier):
@@ -227,15 +227,35 @@ class C12(CheckBase):
                     # in-place change of a list valued member (append), e.g. state.Extension.append(...)
                     entry = live[op['pick'] % len(live)]
                     from sdc11073.xml_types import xml_structure as xs
-                    cands = [(n, p) for n, p in entry[0].sorted_container_properties()
-                             if isinstance(p, (xs.ExtensionNodeProperty, xs.SubElementListProperty, xs.SubElementStringListProperty,
-                                               xs._StringAttributeListBase, xs.DecimalListAttributeProperty))]
+                    list_props = (xs.ExtensionNodeProperty, xs.SubElementListProperty, xs.SubElementStringListProperty,
+                                  xs._StringAttributeListBase, xs.DecimalListAttributeProperty)
+
+                    def collect(obj, path, depth, out):
+                        # list valued members of obj and (up to three levels down) of its nested values
+                        for n, p in obj.sorted_container_properties():
+                            if isinstance(p, list_props):
+                                out.append((obj, n, p, path + [n]))
+                            if depth < 3:
+                                try:
+                                    v = p.get_actual_value(obj)
+                                except Exception:  # noqa: BLE001
+                                    v = None
+                                for sub in (v if isinstance(v, list) else [v])[:2]:
+                                    if hasattr(sub, 'sorted_container_properties'):
+                                        collect(sub, path + [n], depth + 1, out)
+                    allc = []
+                    collect(entry[0], [], 0, allc)
+                    nested = [c_ for c_ in allc if len(c_[3]) > 1]
+                    cands = nested if (nested and rng.random() < 0.6) else allc
                     if not cands:
                         continue
-                    pname, prop = rng.choice(cands)
-                    lst = getattr(entry[0], pname)
+                    owner, pname_, prop, ppath = rng.choice(cands)
+                    pname = '.'.join(ppath)
+                    lst = getattr(owner, pname_)
                     if lst is None:
                         continue
+                    if len(ppath) > 1:
+                        ctx.probe('inplace_append_nested')
                     if isinstance(prop, xs.ExtensionNodeProperty):
                         lst.append(etree.Element(etree.QName('urn:dsim:ext', f'e{op["id"]}')))
                     elif isinstance(prop, xs.SubElementListProperty) and not isinstance(prop, xs.SubElementStringListProperty):
@@ -249,7 +269,7 @@ class C12(CheckBase):
                     writes += 1
                     entry[1] = canon.canon(entry[0])
                     target = (entry[0], entry[4])
-                    shape = f'inplace-append:{type(prop).__name__}'
+                    shape = f'inplace-append{"-nested" if len(ppath) > 1 else ""}:{type(prop).__name__}'
                     where = f'inplace-append:{entry[2]}:{pname}'
                 elif k == 'serialise' and live:
                     ctx.probe('serialise')
